@@ -312,6 +312,21 @@ func runScenario(sc scenario) {
 	for i := 0; i < initial; i++ {
 		readers = append(readers, newReader(i))
 	}
+	// interleaved TCP: one more reader is a raw peer that keeps sending in-session requests while
+	// the media flows (responses and frames share its connection)
+	var chatty *chattyReader
+	if sc.Transport == "tcp" && !sc.SmallQ && !sc.TLS {
+		name := sc.Name + "-chatty"
+		cr, err := startChatty(ts, sc, desc, streamPath, name)
+		if err != nil {
+			fail("reader-start-failed", "chatty raw reader could not start: "+err.Error(), nil)
+		} else {
+			chatty = cr
+			tags.mu.Lock()
+			tags.readers["verif:"+name] = cr.Rd
+			tags.mu.Unlock()
+		}
+	}
 	startWriters()
 	nextReader := initial
 	churnDone := make(chan struct{})
@@ -410,6 +425,13 @@ func runScenario(sc scenario) {
 		}
 	}
 	rmu.Unlock()
+	if chatty != nil {
+		if err := chatty.died(); err != nil {
+			fail("chatty-reader/connection-ended", fmt.Sprintf("the raw reader's connection ended during the load: %v (%d requests sent, %d answered)", err, chatty.sent.Load(), chatty.answered.Load()), nil)
+		} else {
+			drainRds = append(drainRds, chatty.Rd)
+		}
+	}
 	pubDied := false
 	if pub != nil {
 		if err := pub.Died(); err != nil {
@@ -461,6 +483,19 @@ func runScenario(sc scenario) {
 		}
 	}
 	rmu.Unlock()
+	if chatty != nil {
+		chatty.Close()
+		run.Count("chatty-requests-sent", chatty.sent.Load())
+		run.Count("chatty-requests-answered", chatty.answered.Load())
+		if v := chatty.mismatch.Load(); v != nil {
+			fail("chatty-reader/stream-desynchronised", "raw reader sending in-session requests during PLAY: "+v.(string), nil)
+		}
+		fs, st := rig.Check(t2, chatty.Rd)
+		account(sc, st, chatty.Rd)
+		for _, f := range fs {
+			fail(f.Key, fmt.Sprintf("reader %s: %s", chatty.name, f.What), f.Detail)
+		}
+	}
 	if pub != nil {
 		pub.C.Close()
 	}
